@@ -303,6 +303,16 @@ func (c *FnCtx) arith(op token.Token, x, y string, t, yTy types.Type, checks boo
 	}
 	ovf := func(r string) string {
 		if checks {
+			if c.fc != nil && (c.fc.NoSafety["ovf"] || c.fc.NoSafety["all"]) {
+				// no overflow obligation is generated here, so the result must be the machine result: wrap around
+				m := smtInt(pow2(ii.bits))
+				w := "(mod " + r + " " + m + ")"
+				if ii.signed {
+					h := smtInt(pow2(ii.bits - 1))
+					w = "(- (mod (+ " + r + " " + h + ") " + m + ") " + h + ")"
+				}
+				return "(ite " + inRange(r) + " " + r + " " + w + ")"
+			}
 			c.check(fmt.Sprintf("safety.ovf:%d", c.ordinal("ovf")), "arithmetic stays in range of "+t.String(), inRange(r))
 		}
 		return r
